@@ -373,12 +373,15 @@ structure Selector where
   pseudo : Option Pseudo := none
 deriving Repr, DecidableEq
 
-/-- `<i32 as FromStr>::from_str(digits).unwrap()` : `none` models the panic -/
+/-- `<i32 as FromStr>::from_str(digits)` on a digit string: `none` = out of range (the `map_res` then fails the
+    alternative; before fix 77b1b03 this was an `unwrap()` panic) -/
 def parseI32Digits (ds : Inp) : Option Int :=
   let v : Nat := ds.foldl (fun a d => a * 10 + (d.toNat - 48)) 0
   if v ≤ 2147483647 then some (Int.ofNat v) else none
 
-inductive PRes (α : Type) | ok (r : Inp) (a : α) | fail | panic
+/-- a parser result: success with the rest of the input, or failure.  There is deliberately no `panic`
+    constructor: nothing in the CSS parser can panic (C17), and the type says so. -/
+inductive PRes (α : Type) | ok (r : Inp) (a : α) | fail
 deriving Repr
 
 def signOf (i : Inp) : Inp × Int := match i with | '-' :: r => (r, -1) | '+' :: r => (r, 1) | _ => (i, 1)
@@ -421,7 +424,7 @@ def parseNthArgs (text : Inp) : PRes SelComp :=
       | _ => justB
   | _ => .fail
 
-/-- one selector component; `none` = no alternative matched; panics are propagated -/
+/-- one selector component; `fail` = no alternative matched -/
 def parseSelComp (text : Inp) : PRes SelComp :=
   let t1 := skipWs text
   match t1 with
@@ -451,7 +454,6 @@ def selCompsGo : Nat → Inp → List SelComp → Bool → PRes (List SelComp)
   | 0, i, acc, _ => .ok i acc
   | f + 1, i, acc, first =>
     match parseSelComp i with
-    | .panic => .panic
     | .fail => .ok i acc
     | .ok i1 c => if i1.length = i.length && !first then .fail else selCompsGo f i1 (acc ++ [c]) false
 
@@ -467,15 +469,12 @@ def parseSelector (text : Inp) : PRes Selector :=
        | .ok r cs => .ok r (.elem id :: cs)
        | .fail => (match parseSelComp text with          -- many0 errored: try many1 alternative
           | .ok i1 c => selCompsGo (i1.length + 1) i1 [c] false
-          | .fail => .fail | .panic => .panic)
-       | .panic => .panic)
+          | .fail => .fail))
     | none =>
       match parseSelComp text with
       | .ok i1 c => selCompsGo (i1.length + 1) i1 [c] false
       | .fail => .fail
-      | .panic => .panic
   match r with
-  | .panic => .panic
   | .fail => .fail
   | .ok rest comps =>
     let comps := trimDesc (trimDesc comps).reverse
@@ -496,8 +495,7 @@ def selListGo : Nat → Inp → List Selector → PRes (List Selector)
       let i1 := skipWs r
       (match parseSelector i1 with
        | .ok i2 s => selListGo f i2 (acc ++ [s])
-       | .fail => .ok i acc
-       | .panic => .panic)
+       | .fail => .ok i acc)
     | _ => .ok i acc
 
 def parseRuleset (text : Inp) : PRes RuleSet :=
@@ -506,9 +504,7 @@ def parseRuleset (text : Inp) : PRes RuleSet :=
     match parseSelector rest with
     | .ok i1 s => selListGo (i1.length + 1) i1 [s]
     | .fail => .ok rest []
-    | .panic => .panic
   match sels with
-  | .panic => .panic
   | .fail => .fail
   | .ok rest sels =>
     match skipWs rest with
@@ -559,14 +555,13 @@ def parseAtRule (text : Inp) : SRes :=
      | none => .fail)
   | _ => .fail
 
-inductive SheetRes | ok (rules : List RuleSet) | err | panic | hang
+inductive SheetRes | ok (rules : List RuleSet) | err | hang
 deriving Repr
 
 def sheetGo : Nat → Inp → List RuleSet → SheetRes
   | 0, _, acc => .ok acc
   | f + 1, i, acc =>
     match parseRuleset i with
-    | .panic => .panic
     | .ok i1 rs => if i1.length = i.length then .err else sheetGo f i1 (acc ++ [rs])
     | .fail =>
       match parseAtRule i with
